@@ -104,18 +104,51 @@ impl Peer {
 /// never reaped before exit (so the pid cannot be recycled). No fork happens
 /// while cases run: a fork in another thread would briefly hold copies of this
 /// thread's socket ends and delay the HUP the hub sees when a worker "closes".
+/// Set-up failures (temp dir, socket pair / bind / connect, dummy child, hub
+/// thread start) are not verdicts about the code under test: they panic with a
+/// message starting with this marker; the case runners catch it, retry the case
+/// and finally count it as inconclusive.
+pub const SETUP: &str = "SETUP:";
+
+/// the text of a caught panic
+pub fn panic_text(e: &(dyn std::any::Any + Send)) -> String {
+    if let Some(s) = e.downcast_ref::<&str>() {
+        s.to_string()
+    } else if let Some(s) = e.downcast_ref::<String>() {
+        s.clone()
+    } else {
+        "panic".into()
+    }
+}
+
+/// run `f` up to `tries` times, pausing a little longer each time
+pub fn retrying<T>(what: &str, tries: u32, mut f: impl FnMut() -> Result<T, String>) -> T {
+    let mut last = String::new();
+    for i in 0..tries {
+        match f() {
+            Ok(x) => return x,
+            Err(e) => last = e,
+        }
+        std::thread::sleep(Duration::from_millis(20 << i));
+    }
+    panic!("{SETUP} {what}: {last}");
+}
+
 pub static DUMMY_PID: std::sync::atomic::AtomicI32 = std::sync::atomic::AtomicI32::new(0);
 
-pub fn spawn_dummy() -> Child {
-    let dummy = Command::new("sleep")
-        .arg("100000")
-        .stdin(Stdio::null())
-        .stdout(Stdio::null())
-        .stderr(Stdio::null())
-        .spawn()
-        .expect("spawn dummy child");
-    DUMMY_PID.store(dummy.id() as i32, std::sync::atomic::Ordering::SeqCst);
-    dummy
+/// spawn the dummy child (retried); `None` when the machine cannot fork right
+/// now — every rig start then fails as a set-up failure (inconclusive cases)
+pub fn spawn_dummy() -> Option<Child> {
+    for i in 0..5 {
+        match Command::new("sleep").arg("100000").stdin(Stdio::null()).stdout(Stdio::null()).stderr(Stdio::null()).spawn() {
+            Ok(dummy) => {
+                DUMMY_PID.store(dummy.id() as i32, std::sync::atomic::Ordering::SeqCst);
+                return Some(dummy);
+            }
+            Err(_) => std::thread::sleep(Duration::from_millis(50 << i)),
+        }
+    }
+    None
 }
 
 pub struct Rig {
@@ -135,16 +168,22 @@ impl Rig {
 
     /// the last `small` workers get a channel whose ceiling (4 KiB) refuses a big request
     pub fn start_small(nworkers: usize, timeout_s: u32, small: usize) -> Rig {
-        let dir = tempfile::Builder::new().prefix("vhub").tempdir_in("/tmp").expect("tempdir");
+        retrying("rig start", 3, || Rig::try_start_small(nworkers, timeout_s, small))
+    }
+
+    fn try_start_small(nworkers: usize, timeout_s: u32, small: usize) -> Result<Rig, String> {
+        let dir = tempfile::Builder::new().prefix("vhub").tempdir_in("/tmp").map_err(|e| format!("tempdir: {e}"))?;
         let sock_path = dir.path().join("s").to_string_lossy().to_string();
         let pid = DUMMY_PID.load(std::sync::atomic::Ordering::SeqCst);
-        assert!(pid > 1, "dummy child not spawned");
+        if pid <= 1 {
+            return Err("dummy child not spawned".into());
+        }
         let mut hub_ends = vec![];
         let mut workers = vec![];
         for id in 0..nworkers {
-            let (a, b) = UnixStream::pair().expect("socketpair");
-            a.set_nonblocking(true).unwrap();
-            let (s1, s2) = UnixStream::pair().expect("socketpair");
+            let (a, b) = UnixStream::pair().map_err(|e| format!("socketpair: {e}"))?;
+            a.set_nonblocking(true).map_err(|e| format!("set_nonblocking: {e}"))?;
+            let (s1, s2) = UnixStream::pair().map_err(|e| format!("socketpair: {e}"))?;
             // keep the far end of the scm socket open for the life of the rig
             hub_ends.push((id as u32, a.into_raw_fd(), s1.into_raw_fd(), s2.into_raw_fd()));
             workers.push(Some(Peer::new(b)));
@@ -197,22 +236,28 @@ impl Rig {
                     }
                 }
             })
-            .expect("spawn hub");
+            .map_err(|e| format!("spawn hub thread: {e}"))?;
         let hub_tid = match rx.recv_timeout(Duration::from_secs(10)) {
             Ok(Ok(tid)) => tid,
             other => {
-                let why = match hub.join() {
-                    Ok(Err(e)) => e,
-                    _ => format!("{other:?}"),
+                // (a thread that is merely slow to start is left alone, not joined)
+                let why = if hub.is_finished() {
+                    match hub.join() {
+                        Ok(Err(e)) => e,
+                        _ => format!("{other:?}"),
+                    }
+                } else {
+                    format!("{other:?}")
                 };
-                panic!("hub did not start: {why}");
+                return Err(format!("hub did not start: {why}"));
             }
         };
-        Rig { _dir: dir, sock_path, hub: Some(hub), workers, hub_tid }
+        Ok(Rig { _dir: dir, sock_path, hub: Some(hub), workers, hub_tid })
     }
 
     pub fn connect(&self) -> Peer {
-        let s = UnixStream::connect(&self.sock_path).expect("connect command socket");
+        let path = self.sock_path.clone();
+        let s = retrying("connect command socket", 4, || UnixStream::connect(&path).map_err(|e| e.to_string()));
         Peer::new(s)
     }
 
